@@ -51,13 +51,23 @@ def walk (hasVerb : Bool) : List Str → List Str → Nat → Nat → MatchResul
         | .panic => .panic
         | .stop => .yes (p + 1) s
         | .next => walk hasVerb rts qs (p + 1) s
-      | none => walk hasVerb rts qs (p + 1) s
+      | none =>
+        -- `{var}suffix`: the literal text after `}` must end the request token
+        match index '}' rt' with
+        | some e => if !hasSuffix (rt'.drop (e + 1)) q' then .no else walk hasVerb rts qs (p + 1) s
+        | none => walk hasVerb rts qs (p + 1) s
     else if q' != rt' then .no
     else walk hasVerb rts qs p (s + 1)
 
+/-- curly.go `isTailWildcard`: the token has the form `{name:*}` -/
+def isTailWildcard (rt : Str) : Bool :=
+  match index ':' rt with
+  | some colon => hasPrefix ['{'] rt && rt.drop (colon + 1) == ['*', '}']
+  | none => false
+
 def lastIsStar (rts : List Str) : Bool :=
   match rts.getLast? with
-  | some l => hasSuffix ['*', '}'] l
+  | some l => isTailWildcard l
   | none => false
 
 /-- curly.go:60 `matchesRouteByPathTokens` -/
